@@ -98,8 +98,6 @@ func (a *AES128CBC) SerializeTo(b gopacket.SerializeBuffer, _ gopacket.Serialize
 	}
 	trailer[padLength] = uint8(padLength)
 
-	toEncrypt := b.Bytes() // includes confidentiality trailer
-
 	// secure random IV for confidentiality header
 	iv, err := b.PrependBytes(a.cipher.BlockSize())
 	if err != nil {
@@ -109,7 +107,10 @@ func (a *AES128CBC) SerializeTo(b gopacket.SerializeBuffer, _ gopacket.Serialize
 		return err
 	}
 
-	// encrypt everything after IV
+	// encrypt everything after IV, including the confidentiality trailer. This
+	// slice must be taken after prepending the IV, as that can reallocate the
+	// buffer's underlying array.
+	toEncrypt := b.Bytes()[a.cipher.BlockSize():]
 	mode := cipher.NewCBCEncrypter(a.cipher, iv)
 	mode.CryptBlocks(toEncrypt, toEncrypt)
 	return nil
